@@ -243,6 +243,79 @@ static int op_aeadinc(const std::vector<std::string> &t) {
     return inc_case(A, 20, t[2], adlen, ch, tm);
 }
 
+// ---- incremental AEAD re-initialisation:  AEADRE <alg> <npub:0|1|2> <k:0|1> <adlen> <mlen>
+// init under a secret key and a secret nonce, one packet, then *_aead_reinit with npub NULL (0) / a fresh secret nonce (1) /
+// the object's own nonce field (2, the documented way to continue the session) and k NULL (0) / a second secret key (1),
+// then a second packet.  Which pointers are given is public; their contents are not.
+template <class S> static int reinit_case(const IncApi<S> &A, void (*re)(S *, const unsigned char *, const unsigned char *), unsigned char *(*nonce_of)(S *),
+                                          size_t klen, int nmode, int kmode, size_t adlen, size_t mlen) {
+    Bytes k = sec(klen), npub = sec(16), ad = fill(adlen), m = sec(mlen), c(mlen + 1), tag(17);
+    S s;
+    A.init(&s, npub.data(), k.data()); A.start(&s, ad.data(), adlen); A.eb(&s, m.data(), c.data(), mlen); A.ef(&s, tag.data());
+    out(c.data(), mlen); out(tag.data(), 16);
+    Bytes k2 = sec(klen), n2 = sec(16);
+    re(&s, nmode == 0 ? 0 : nmode == 1 ? n2.data() : nonce_of(&s), kmode ? k2.data() : 0);
+    A.start(&s, ad.data(), adlen); A.eb(&s, m.data(), c.data(), mlen); A.ef(&s, tag.data());
+    out(c.data(), mlen); out(tag.data(), 16);
+    // and a decryption session after a further re-initialisation: the result is public, the recovered plaintext is output
+    re(&s, n2.data(), k2.data());
+    A.start(&s, ad.data(), adlen); A.db(&s, c.data(), m.data(), mlen); int r = result(A.df(&s, tag.data())); A.fr(&s);
+    out(m.data(), mlen);
+    return r == 0 ? 0 : 1;       // (the tag belongs to another nonce/key unless nmode = 1 and kmode = 1: either outcome is fine)
+}
+static unsigned char *nonce128(ascon128_state_t *s) { return s->nonce; }
+static unsigned char *nonce128a(ascon128a_state_t *s) { return s->nonce; }
+static unsigned char *nonce80pq(ascon80pq_state_t *s) { return s->nonce; }
+static int op_aeadre(const std::vector<std::string> &t) {
+    int nm = atoi(t[2].c_str()), km = atoi(t[3].c_str()); size_t adlen = strtoul(t[4].c_str(), 0, 10), mlen = strtoul(t[5].c_str(), 0, 10);
+    if (t[1] == "128") { IncApi<ascon128_state_t> A = {ascon128_aead_init, ascon128_aead_start, ascon128_aead_encrypt_block, ascon128_aead_encrypt_finalize, ascon128_aead_decrypt_block, ascon128_aead_decrypt_finalize, ascon128_aead_free};
+        return reinit_case(A, ascon128_aead_reinit, nonce128, 16, nm, km, adlen, mlen); }
+    if (t[1] == "128a") { IncApi<ascon128a_state_t> A = {ascon128a_aead_init, ascon128a_aead_start, ascon128a_aead_encrypt_block, ascon128a_aead_encrypt_finalize, ascon128a_aead_decrypt_block, ascon128a_aead_decrypt_finalize, ascon128a_aead_free};
+        return reinit_case(A, ascon128a_aead_reinit, nonce128a, 16, nm, km, adlen, mlen); }
+    IncApi<ascon80pq_state_t> A = {ascon80pq_aead_init, ascon80pq_aead_start, ascon80pq_aead_encrypt_block, ascon80pq_aead_encrypt_finalize, ascon80pq_aead_decrypt_block, ascon80pq_aead_decrypt_finalize, ascon80pq_aead_free};
+    return reinit_case(A, ascon80pq_aead_reinit, nonce80pq, 20, nm, km, adlen, mlen);
+}
+
+// ---- ISAP key life cycle:  ISAPKEY <alg> <adlen> <mlen>
+// init from a secret key, save_key (the 80-byte image is as secret as the key: it is NOT published), load_key of that image
+// into a second object, a packet under the loaded object, load_key of a fresh secret image over it, free of everything.
+template <class K> struct IsapApi {
+    void (*init)(K *, const unsigned char *); void (*load)(K *, const unsigned char *); void (*save)(K *, unsigned char *); void (*fr)(K *);
+    void (*enc)(unsigned char *, size_t *, const unsigned char *, size_t, const unsigned char *, size_t, const unsigned char *, const K *);
+    int (*dec)(unsigned char *, size_t *, const unsigned char *, size_t, const unsigned char *, size_t, const unsigned char *, const K *);
+};
+template <class K> static int isapkey_case(const IsapApi<K> &A, size_t klen, size_t adlen, size_t mlen) {
+    Bytes k = sec(klen), ad = fill(adlen), npub = fill(16), m = sec(mlen), c(mlen + 17), m2(mlen + 1);
+    unsigned char image[ASCON_ISAP_SAVED_KEY_SIZE], image2[ASCON_ISAP_SAVED_KEY_SIZE];
+    K pk, pl; size_t clen = 0, mlen2 = 0;
+    A.init(&pk, k.data());
+    A.save(&pk, image);
+    { unsigned char vb[ASCON_ISAP_SAVED_KEY_SIZE]; unsigned long n = 0;          // the image must carry the key's taint, otherwise this line observes nothing
+      if (VALGRIND_GET_VBITS(image, vb, sizeof(vb)) == 1) { for (size_t i = 0; i < sizeof(vb); ++i) if (vb[i]) ++n; if (n == 0) return 100; } }
+    A.load(&pl, image);
+    A.enc(c.data(), &clen, m.data(), mlen, ad.data(), adlen, npub.data(), &pl);
+    out(&clen, sizeof(clen)); out(c.data(), mlen + 16);
+    int r = result(A.dec(m2.data(), &mlen2, c.data(), mlen + 16, ad.data(), adlen, npub.data(), &pk));     // the original object accepts it
+    out(m2.data(), mlen);
+    Bytes fresh = sec(ASCON_ISAP_SAVED_KEY_SIZE);
+    A.load(&pl, fresh.data());                    // over a live object, from an image that is secret in every byte
+    A.save(&pl, image2);
+    A.enc(c.data(), &clen, m.data(), mlen, ad.data(), adlen, npub.data(), &pl);
+    out(c.data(), mlen + 16);
+    A.fr(&pk); A.fr(&pl);
+    ascon_clean(image, sizeof(image)); ascon_clean(image2, sizeof(image2));
+    return r == 0 ? 0 : 100;
+}
+static int op_isapkey(const std::vector<std::string> &t) {
+    size_t adlen = strtoul(t[2].c_str(), 0, 10), mlen = strtoul(t[3].c_str(), 0, 10);
+    if (t[1] == "128") { IsapApi<ascon128_isap_aead_key_t> A = {ascon128_isap_aead_init, ascon128_isap_aead_load_key, ascon128_isap_aead_save_key, ascon128_isap_aead_free, ascon128_isap_aead_encrypt, ascon128_isap_aead_decrypt};
+        return isapkey_case(A, 16, adlen, mlen); }
+    if (t[1] == "128a") { IsapApi<ascon128a_isap_aead_key_t> A = {ascon128a_isap_aead_init, ascon128a_isap_aead_load_key, ascon128a_isap_aead_save_key, ascon128a_isap_aead_free, ascon128a_isap_aead_encrypt, ascon128a_isap_aead_decrypt};
+        return isapkey_case(A, 16, adlen, mlen); }
+    IsapApi<ascon80pq_isap_aead_key_t> A = {ascon80pq_isap_aead_init, ascon80pq_isap_aead_load_key, ascon80pq_isap_aead_save_key, ascon80pq_isap_aead_free, ascon80pq_isap_aead_encrypt, ascon80pq_isap_aead_decrypt};
+    return isapkey_case(A, 20, adlen, mlen);
+}
+
 // ---- PRF / MAC ----------------------------------------------------------------------
 static int op_prf(const std::vector<std::string> &t) {
     const std::string &w = t[0];
@@ -272,8 +345,11 @@ static int op_prf(const std::vector<std::string> &t) {
         if (t.size() > 3) ascon_prf_fixed_init(&s, k.data(), strtoul(t[3].c_str(), 0, 10)); else ascon_prf_init(&s, k.data());
         for (size_t i = 0; i < ch.size(); ++i) { Bytes in = sec(ch[i]); ascon_prf_absorb(&s, in.data(), ch[i]); }
         for (size_t i = 0; i < os.size(); ++i) { Bytes o(os[i] + 1); ascon_prf_squeeze(&s, o.data(), os[i]); out(o.data(), os[i]); }
-        ascon_prf_reinit(&s, k.data());
-        { Bytes o(9); ascon_prf_squeeze(&s, o.data(), 8); out(o.data(), 8); }
+        // re-initialisation under a second secret key: the fixed-length form for a fixed-length object
+        { Bytes k2 = sec(16);
+          if (t.size() > 3) ascon_prf_fixed_reinit(&s, k2.data(), strtoul(t[3].c_str(), 0, 10)); else ascon_prf_reinit(&s, k2.data());
+          Bytes in = sec(9); ascon_prf_absorb(&s, in.data(), 9);
+          Bytes o(9); ascon_prf_squeeze(&s, o.data(), 8); out(o.data(), 8); }
         ascon_prf_free(&s);
         return 0;
     }
@@ -312,10 +388,14 @@ static int op_kmac(const std::vector<std::string> &t) {      // KMAC <-|a> <keyl
     if (a) { ascon_kmaca_state_t s; ascon_kmaca_init(&s, key.data(), keylen, custom.data(), cl, total);
         for (size_t i = 0; i < ch.size(); ++i) { Bytes in = sec(ch[i]); ascon_kmaca_absorb(&s, in.data(), ch[i]); }
         for (size_t i = 0; i < os.size(); ++i) { Bytes o(os[i] + 1); ascon_kmaca_squeeze(&s, o.data(), os[i]); out(o.data(), os[i]); }
+        { Bytes key2 = sec(keylen), in = sec(9), o(total + 1); ascon_kmaca_reinit(&s, key2.data(), keylen, custom.data(), cl, total);
+          ascon_kmaca_absorb(&s, in.data(), 9); ascon_kmaca_squeeze(&s, o.data(), total); out(o.data(), total); }
         ascon_kmaca_free(&s); }
     else { ascon_kmac_state_t s; ascon_kmac_init(&s, key.data(), keylen, custom.data(), cl, total);
         for (size_t i = 0; i < ch.size(); ++i) { Bytes in = sec(ch[i]); ascon_kmac_absorb(&s, in.data(), ch[i]); }
         for (size_t i = 0; i < os.size(); ++i) { Bytes o(os[i] + 1); ascon_kmac_squeeze(&s, o.data(), os[i]); out(o.data(), os[i]); }
+        { Bytes key2 = sec(keylen), in = sec(9), o(total + 1); ascon_kmac_reinit(&s, key2.data(), keylen, custom.data(), cl, total);
+          ascon_kmac_absorb(&s, in.data(), 9); ascon_kmac_squeeze(&s, o.data(), total); out(o.data(), total); }
         ascon_kmac_free(&s); }
     return 0;
 }
@@ -326,9 +406,13 @@ static int op_kdf(const std::vector<std::string> &t) {       // KDF <-|a> <keyle
         if (a) ascon_kdfa(o.data(), ol, key.data(), keylen, custom.data(), cl); else ascon_kdf(o.data(), ol, key.data(), keylen, custom.data(), cl);
         out(o.data(), ol); return 0; }
     if (a) { ascon_kdfa_state_t s; ascon_kdfa_init(&s, key.data(), keylen, custom.data(), cl, sum(os));
-        for (size_t i = 0; i < os.size(); ++i) { Bytes o(os[i] + 1); ascon_kdfa_squeeze(&s, o.data(), os[i]); out(o.data(), os[i]); } ascon_kdfa_free(&s); }
+        for (size_t i = 0; i < os.size(); ++i) { Bytes o(os[i] + 1); ascon_kdfa_squeeze(&s, o.data(), os[i]); out(o.data(), os[i]); }
+        { Bytes key2 = sec(keylen), o(sum(os) + 1); ascon_kdfa_reinit(&s, key2.data(), keylen, custom.data(), cl, sum(os)); ascon_kdfa_squeeze(&s, o.data(), sum(os)); out(o.data(), sum(os)); }
+        ascon_kdfa_free(&s); }
     else { ascon_kdf_state_t s; ascon_kdf_init(&s, key.data(), keylen, custom.data(), cl, sum(os));
-        for (size_t i = 0; i < os.size(); ++i) { Bytes o(os[i] + 1); ascon_kdf_squeeze(&s, o.data(), os[i]); out(o.data(), os[i]); } ascon_kdf_free(&s); }
+        for (size_t i = 0; i < os.size(); ++i) { Bytes o(os[i] + 1); ascon_kdf_squeeze(&s, o.data(), os[i]); out(o.data(), os[i]); }
+        { Bytes key2 = sec(keylen), o(sum(os) + 1); ascon_kdf_reinit(&s, key2.data(), keylen, custom.data(), cl, sum(os)); ascon_kdf_squeeze(&s, o.data(), sum(os)); out(o.data(), sum(os)); }
+        ascon_kdf_free(&s); }
     return 0;
 }
 static int op_hkdf(const std::vector<std::string> &t) {      // HKDF <-|a> <keylen> <saltlen> <infolen> <outs> [oneshot]   (salt is secret too: it keys the extraction)
@@ -396,6 +480,8 @@ static int run_line(const std::string &line) {
     if (w == "CANARY") { if (t[1] == "branch") canary_branch(); else if (t[1] == "addr") canary_addr(); else canary_memcmp(); return 0; }
     if (w == "AEAD" || w == "SIV" || w == "ISAP" || w == "MASKED") return op_aead(t);
     if (w == "AEADINC") return op_aeadinc(t);
+    if (w == "AEADRE") return op_aeadre(t);
+    if (w == "ISAPKEY") return op_isapkey(t);
     if (w == "PRF" || w == "PRFFIXED" || w == "PRFSHORT" || w == "MAC" || w == "MACV" || w == "PRFINC") return op_prf(t);
     if (w == "HMAC") return op_hmac(t);
     if (w == "KMAC") return op_kmac(t);
